@@ -79,6 +79,46 @@ def pub_case(k):
     return (2, 0, 0, 0, v.encode()), [2] + list(v.encode())
 
 
+def derived_ecdsa_keys(ctx):
+    """ECDSA keys derived from seeded private scalars, chosen so that the x and / or y coordinate of the public
+    point has leading zero byte(s): the coordinate is then shorter than the field and asbytes() must left-pad it
+    (about 1 in 256 keys on P-256/384, 1 in 2 on P-521; none of the bundled keys)."""
+    import paramiko
+    from cryptography.hazmat.primitives.asymmetric import ec
+    out = []
+    for bits, curve, klen in ((256, ec.SECP256R1(), 32), (384, ec.SECP384R1(), 48), (521, ec.SECP521R1(), 66)):
+        start = ctx.rng.getrandbits(bits - 16) | 1
+        want = {"x-short": None, "y-short": None, "y-very-short": None, "both-short": None}
+        lim1 = 1 << (8 * (klen - 1))
+        lim2 = 1 << (8 * (klen - 2))
+        for i in range(6000 if ctx.thorough else 2500):
+            sc = start + i
+            priv = ec.derive_private_key(sc, curve)
+            pn = priv.public_key().public_numbers()
+            tags = []
+            if pn.x < lim1:
+                tags.append("x-short")
+            if pn.y < lim1:
+                tags.append("y-short")
+            if pn.y < lim2:
+                tags.append("y-very-short")
+            if pn.x < lim1 and pn.y < lim1:
+                tags.append("both-short")
+            for t in tags:
+                if want[t] is None:
+                    want[t] = (sc, priv)
+            if want["x-short"] and want["y-short"] and (i > 1200 or (want["y-very-short"] and want["both-short"])):
+                break
+        seen = set()
+        for t, v in sorted(want.items()):
+            if v is None or v[0] in seen:
+                continue
+            seen.add(v[0])
+            out.append(("derived-ecdsa-%d-%s-scalar-0x%x" % (bits, t, v[0]),
+                        paramiko.ECDSAKey(vals=(v[1], v[1].public_key())), None))
+    return out
+
+
 def make_keys(ctx):
     import paramiko
     out = []
@@ -86,6 +126,7 @@ def make_keys(ctx):
         out.append(("generated-rsa-%d" % bits, paramiko.RSAKey.generate(bits), None))
     for bits in (256, 384, 521):
         out.append(("generated-ecdsa-%d" % bits, paramiko.ECDSAKey.generate(bits=bits), None))
+    out += derived_ecdsa_keys(ctx)
     for rel, cls, pw, cert in BUNDLED:
         if not ctx.thorough and cert is None and rel not in ("tests/test_ecdsa_384.key", "tests/test_rsa_password.key",
                                                              "tests/test_ed25519_password.key"):
@@ -162,7 +203,7 @@ def run(ctx):
     from paramiko.message import Message
     from paramiko.ssh_exception import SSHException, PasswordRequiredException
     rng = ctx.rng
-    ctx.rule = ("seeded (random.Random('C36-<seed>')): generated RSA-1024 (2048 thorough) and ECDSA P-256/384/521 keys, bundled "
+    ctx.rule = ("seeded (random.Random('C36-<seed>')): generated RSA-1024 (2048 thorough) and ECDSA P-256/384/521 keys, ECDSA keys derived from seeded private scalars searched (<= 2500 per curve) so that x / y / both coordinates have leading zero bytes on every curve, bundled "
                 "RSA / ECDSA / Ed25519 private keys (PEM, encrypted, OpenSSH), the three bundled certificates; per key: asbytes vs "
                 "model, ~25 decoder inputs (genuine, 11 type names incl. invalid UTF-8 and cert names, truncations, curve names, "
                 "off-curve / wrong-length / degenerate points, bad RSA numbers, wrong-length Ed25519 keys, certificate blobs), "
